@@ -185,6 +185,9 @@ func (c *creator) setPrefix(nid int32, prefixBitFrom, prefixBitTo int32, key str
 	}
 }
 
+// maxStep is the max number of 4-bit words a step can skip: it is stored in 2 bytes.
+const maxStep = int32(0xffff)
+
 func encStep(step int32) []byte {
 	step >>= 2
 	return []byte{byte(step >> 8), byte(step & 0xff)}
@@ -554,6 +557,14 @@ func newSlim(keys []string, bytesValues [][]byte, opt *Opt) (*Slim, error) {
 		idxs := make([]int32, len(labelPaths))
 		for i, p := range labelPaths {
 			idxs[i] = bmtree.PathToIndex(bitmapSize, p)
+		}
+
+		// Without InnerPrefix a step is stored as a 16-bit count of 4-bit words.
+		// Refuse a longer shared run instead of building an index in which the
+		// step silently wraps and keys can no longer be found.
+		if !*opt.InnerPrefix && (wordStart-o.fromKeyBit)>>2 > maxStep {
+			return nil, errors.Wrapf(ErrStepTooLong,
+				"keys[%d:%d] share %d bits from bit %d", s, e, wordStart-o.fromKeyBit, o.fromKeyBit)
 		}
 
 		// Without the bits of label word at parent node
